@@ -168,9 +168,12 @@ func gen(r0 *vh.Rand) string {
 		if r.Chance(1, 10) { // odd names; the tag still determines the product
 			k := r.Intn(len(oddNames))
 			e.tag, e.product = "T"+oddNames[k], oddNames[(k+3)%len(oddNames)]
-			if r.Chance(1, 4) {
+			if r.Chance(1, 4) && oddNames[k] != "" {
 				e.tag = oddNames[k]
 			}
+		}
+		if r.Chance(1, 15) { // the empty host tag is a legal tag
+			e.tag, e.product = "", "pE"
 		}
 		es = append(es, e)
 	}
